@@ -587,6 +587,7 @@ def check_full_run(a, iso, sp, value, nmonths, shutoff):
                 rnd[0] = prev
         return w
     orig_static = ap.AnimalModelBuilder.__dict__["create_animal_objects"]
+    orig_fn = orig_static.__func__ if isinstance(orig_static, staticmethod) else orig_static
 
     def rec(stock, attrs):
         try:
@@ -594,7 +595,7 @@ def check_full_run(a, iso, sp, value, nmonths, shutoff):
         except Exception:
             seen = None
         calls.append((rnd[0], seen, str(stock.name)))
-        return orig_static.__func__(stock, attrs)
+        return orig_fn(stock, attrs)
     for k, n in names.items():
         setattr(par.Parameters, n, mk(k))
     ap.AnimalModelBuilder.create_animal_objects = staticmethod(rec)
